@@ -36,7 +36,7 @@ struct LenpHarness : Harness {
     std::vector<std::string> props() const override { return {"C13"}; }
     std::vector<std::string> probes(const std::string &) const override {
         return {"varint_prefix_1", "varint_prefix_2", "varint_prefix_3plus", "buffer_with_offset_and_free_space", "chunk_list_with_empty_chunk", "chunk_list_active_nonzero",
-                "frame_split_inside_prefix", "destination_one_octet_too_small", "over_maximum_refused", "prefix_declares_more_than_any_destination", "unmaterialised_length_accepted", "kind_maximum_accepted", "sink_error_mid_frame", "buffer_n_less_than_rest",
+                "frame_split_inside_prefix", "destination_one_octet_too_small", "over_maximum_refused", "source_lends_its_window", "prefix_declares_more_than_any_destination", "unmaterialised_length_accepted", "kind_maximum_accepted", "sink_error_mid_frame", "buffer_n_less_than_rest",
                 "n_beyond_unread_refused", "fragmented_decode", "append_behind_existing_content", "multi_frame_stream_fragmented", "source_interruption_during_decode"};
     }
     uint64_t runs(const std::string &, const Tier &t) const override { return t.thorough() ? 10000000 : 1200000; }
@@ -117,6 +117,7 @@ struct LenpHarness : Harness {
             o["dbuf"] = triple(0, r.range(0, 6), 0);  // destination buffer: [unused, used-before, unused]; size = used + cap
             // stream of several frames
             { Json fr = Json::arr(); int nf = (int)r.range(2, 4); for (int q = 0; q < nf; ++q) fr.push((long long)r.range(1, r.chance(1, 4) ? 300 : 12)); o["frames"] = fr; }
+            if (!enc && r.chance(1, 3)) o["gbwin"] = (long long)(r.chance(2, 3) ? r.range(1, 9) : r.range(10, 300));   // decoding into a sink from a source that implements the getbuffer extension
             if (!enc && r.chance(1, 12)) o["hdecl"] = (long long)r.below(12);   // a prefix that declares far more than any destination holds
             o["src_octet"] = r.chance(1, 3); o["snk_octet"] = r.chance(1, 3);
             { Json s = Json::arr(); int n = r.chance(1, 3) ? 0 : (int)r.range(1, 10); for (int q = 0; q < n; ++q) { switch (r.below(8)) { case 0: s.push(0); break; case 1: s.push(-EINTR); break; case 2: s.push(-EAGAIN); break; default: s.push((long long)r.range(1, 4)); } } o["frag"] = s; }
@@ -376,11 +377,12 @@ struct LenpHarness : Harness {
         // source_get_chunk(), also the interruptions that call documents as "retry" (0, -EINTR, -EAGAIN). The varint prefix
         // is read octet-wise without retry (pass-through, C17), so for that kind only short reads are scripted.
         { Json s = Json::arr(); const Json &fj = o.get("frag");
-          for (size_t q = 0; q < fj.size(); ++q) { int64_t v = fj.ati(q, 1); bool transient = v == 0 || v == -EINTR || v == -EAGAIN; if (v < 1 && !(transient && k != 0)) v = 1; s.push((long long)v); }
+          for (size_t q = 0; q < fj.size(); ++q) { int64_t v = fj.ati(q, 1); bool transient = v == 0 || v == -EINTR || v == -EAGAIN; const bool lending = o.has("gbwin") && (ep == "to_sink" || ep == "stream"); if (v < 1 && !(transient && k != 0 && !(lending && v != 0))) v = 1; s.push((long long)v); }   // a lending source is read with single at-most calls (no retry of -EINTR/-EAGAIN, as C17's plumbing latitude says): only short and empty reads there
           src.begin_op(s); }
         if (!src.script.e.empty()) { size_t pl = ref_prefix(k, payloads[0].size()).size(); if (pl > 1 && src.script.e[0] >= 1 && src.script.e[0] < (int64_t)pl) COUNT("probe.frame_split_inside_prefix"); }
         for (auto v : src.script.e) if (v < 1) { COUNT("probe.source_interruption_during_decode"); break; }
         Source source; src.bind(&source);
+        if (o.has("gbwin") && (ep == "to_sink" || ep == "stream")) { int64_t wv = o.geti("gbwin"); if (wv >= 1 && wv <= 4096) { src.lend(&source, (size_t)wv); COUNT("probe.source_lends_its_window"); } }
         const uint64_t dbudget = 8 * (src.data.size() + src.script.e.size() + snk.script.e.size()) + 256;
 
         if (ep == "mem_from") {
